@@ -81,3 +81,22 @@ Theorem c12_timestamp_patterns_as_in_source : forall p,
   is_valid_timestamp_pattern p = (existsb (str_eqb p) src_valid_timestamp_patterns || match p with c :: _ => N.eqb c 37 | [] => false end)%bool.
 Proof. intros p. unfold is_valid_timestamp_pattern. rewrite valid_patterns_as_source. reflexivity. Qed.
 Print Assumptions c12_timestamp_patterns_as_in_source.
+
+(* STRING VALUES SURVIVE THE TEXT: the reader of RON string literals (Model/RonRead.v: ron's parse_escape as a state machine, compared with the
+   implementation on valid and invalid literals of every kind) applied to the literal the writer prints (Model/Ron.v ron_string, compared with the
+   implementation on every emitted object) returns the string - for EVERY string of Unicode scalar values: quotes, backslashes, newlines, control
+   characters and the \u{...} escapes of non-printable characters included; different strings have different literals *)
+From ZV Require Import Ron RonRead RonStringRound.
+Theorem c12_string_values_survive : forall s rest, forallb is_scalar s = true -> ron_read_string (ron_string s ++ rest) = Some (s, rest).
+Proof. exact ron_string_roundtrip. Qed.
+Theorem c12_string_document_roundtrip : forall s, forallb is_scalar s = true -> ron_string_document (ron_string s) = Some s.
+Proof. exact ron_string_document_roundtrip. Qed.
+Theorem c12_string_literals_injective : forall s1 s2, forallb is_scalar s1 = true -> forallb is_scalar s2 = true -> ron_string s1 = ron_string s2 -> s1 = s2.
+Proof. exact ron_string_injective. Qed.
+(* non-vacuity:  a"b\<LF><U+0301><U+1F600>  is printed as  "a\"b\\\n\u{301}<U+1F600>"  and read back *)
+Example c12_ex_string : ron_string [97;34;98;92;10;769;128512]%N = [34;97;92;34;98;92;92;92;110;92;117;123;51;48;49;125;128512;34]%N /\
+  ron_string_document (ron_string [97;34;98;92;10;769;128512]%N) = Some [97;34;98;92;10;769;128512]%N.
+Proof. vm_compute. split; reflexivity. Qed.
+Print Assumptions c12_string_values_survive.
+Print Assumptions c12_string_document_roundtrip.
+Print Assumptions c12_string_literals_injective.
